@@ -396,8 +396,36 @@ def rule_a9_dynamic(ctx):
     arm and in the python-value arm alike (X.690 10.3: ordered by the tag of the value being encoded)."""
     f = ctx.func('codec.der.encoder.SetEncoder._componentSortKey')
     arms = [n for n in walk_own(f.node) if isinstance(n, ast.If) and 'Choice.typeId' in norm(n.test) and 'tagSet' in norm(n.test)]
+    # nested tests of the same kind belong to the outermost one
+    arms = [n for n in arms if not any(n is not m and any(n is x for x in ast.walk(m)) for m in arms)]
     if len(arms) != 1:
         raise AnalysisError('untagged CHOICE arm not found in %s' % f.short)
+    # value arm / python-value arm: the two branches of the `asn1Spec is None` test inside
+    split = [n for n in arms[0].body if isinstance(n, ast.If) and norm(n.test) in ('asn1Spec is None', 'asn1Spec is not None')]
+    if len(split) == 1:
+        def kinds(stmts, chosen_texts):
+            loc = {}
+            for a in [x for st in stmts for x in ast.walk(st) if isinstance(x, ast.Assign) and isinstance(x.targets[0], ast.Name)]:
+                loc[a.targets[0].id] = norm(a.value)
+            out = set()
+            for r in [x for st in stmts for x in ast.walk(st) if isinstance(x, ast.Return)]:
+                t = norm(r.value)
+                for nm, val in loc.items():
+                    if val in chosen_texts:
+                        t = t.replace(nm + '.', '<chosen>.')
+                for c in chosen_texts:
+                    t = t.replace(c, '<chosen>')
+                out.add(t)
+            return out
+        a_true, a_false = split[0].body, split[0].orelse
+        if norm(split[0].test) == 'asn1Spec is not None':
+            a_true, a_false = a_false, a_true
+        kv = kinds(a_true, ('component.getComponent()',))
+        kp = kinds(a_false, ('asn1Spec[names[0]]',))
+        ctx.ob('A9.dyn', f, 'value arm and python-value arm derive the key from the chosen alternative in the same way', kv == kp,
+               'value arm: %s | python-value arm: %s - a SET whose untagged CHOICE member holds a nested untagged CHOICE is ordered '
+               'differently for a value object and for the equal Python value' % (sorted(kv), sorted(kp)) if kv != kp else str(sorted(kv)),
+               node=split[0])
     rets = [r for s_ in arms[0].body for r in ast.walk(s_) if isinstance(r, ast.Return)]
     if len(rets) < 2:
         ctx.ob('A9.dyn', f, 'untagged CHOICE resolved by the chosen alternative in both arms', False,
@@ -412,7 +440,10 @@ def rule_a9_dynamic(ctx):
            node=arms[0])
     for r in rets:
         txt = norm(r.value)
-        dyn = 'getComponent()' in txt or any(isinstance(x, ast.Subscript) and norm(x.value) == 'asn1Spec' for x in ast.walk(r.value))
+        locs = dict((a.targets[0].id, a.value) for a in ast.walk(arms[0]) if isinstance(a, ast.Assign) and isinstance(a.targets[0], ast.Name))
+        via = [locs[x.id] for x in ast.walk(r.value) if isinstance(x, ast.Name) and x.id in locs]
+        dyn = 'getComponent()' in txt or any(isinstance(x, ast.Subscript) and norm(x.value) == 'asn1Spec'
+                                              for e in [r.value] + via for x in ast.walk(e))
         ctx.ob('A9.dyn', f, 'return %s' % txt[:60], dyn,
                'this key does not depend on the alternative chosen in the value: value objects and Python values of the same '
                'content are ordered differently' if not dyn else 'depends on the chosen alternative', node=r)
@@ -423,6 +454,11 @@ def rule_a11_parse(ctx):
     from sa.rules.wire import _subst
     from sa import intexpr
     f = ctx.func('type.useful.TimeMixIn.asDateTime')
+    neg = [n for n in walk_own(f.node) if isinstance(n, ast.If) and norm(n.test) in ("plusminus == '-'",) and
+           any(norm(s) in ('minutes *= -1', 'minutes = -minutes') for s in n.body)]
+    ctx.ob('A11.parse', f, 'offset negated exactly for the minus designator', len(neg) == 1,
+           'no `if plusminus == \'-\': minutes *= -1`: the sign must come from the designator character itself - a sign parsed '
+           'together with the hour digits is lost for -00mm (int(\'-00\') == 0)' if len(neg) != 1 else '')
     mins = [n for n in walk_own(f.node) if isinstance(n, ast.Assign) and norm(n.targets[0]) == 'minutes']
     if not mins:
         raise AnalysisError('offset computation not found in %s' % f.short)
@@ -432,9 +468,6 @@ def rule_a11_parse(ctx):
     except intexpr.NotPure as x:
         raise AnalysisError('offset expression `%s` not recognised: %s' % (norm(mins[0].value), x))
     ctx.ob('A11.parse', f, 'offset minutes = hh * 60 + mm', ok, '`%s`' % norm(mins[0].value), node=mins[0])
-    neg = [n for n in walk_own(f.node) if isinstance(n, ast.If) and norm(n.test) in ("plusminus == '-'",) and
-           any(norm(s) in ('minutes *= -1', 'minutes = -minutes') for s in n.body)]
-    ctx.ob('A11.parse', f, 'offset negated exactly for the minus designator', len(neg) == 1, '')
     parts = sorted(norm(n.value) for n in walk_own(f.node) if isinstance(n, ast.Assign) and 'partition(' in norm(n.value))
     ok = "text.partition('+')" in parts and "text.partition('-')" in parts and "text.partition('.')" in parts and "text.partition(',')" in parts
     ctx.ob('A11.parse', f, 'offset split at + or -, fraction split at . or ,', ok, str(parts))
